@@ -179,6 +179,16 @@ def _oracle(engine, result, case, drive):
             result.counters['probe:pause_after_wakeup_same_position'] += 1
         last_tick_kind[record.tick] = kind
 
+    # "it continues once it is playing": a process that has been played stays un-paused until a pause is requested again
+    last_control = None
+    for event in events:
+        if event[0] == 'call' and event[2] in ('pause', 'play'):
+            last_control = event[2]
+        elif event[0] == 'sample' and event[2] and not event[3] and last_control == 'play':
+            result.violate('lost_wakeup', 'paused_again_after_play', 'the process is paused although the last request was a play: '
+                                                                     'the wake-up cannot take effect')
+            break
+
     if drive == 'lost_wakeup':
         pending = [type(c.get('exception')).__name__ for c in engine.loop.exc_contexts]
         result.violate('lost_wakeup', 'workchain' if is_wc else 'process',
